@@ -401,6 +401,7 @@ func (r *RowCache) IndexExists(row model.Model) error {
 		return nil
 	}
 	uuid := field.(string)
+	var indexExists *ErrIndexExists
 	for _, indexSpec := range r.indexSpecs {
 		if !indexSpec.isSchemaIndex() {
 			// Given the ordered indexSpecs, we can break here if we reach the
@@ -415,14 +416,23 @@ func (r *RowCache) IndexExists(row model.Model) error {
 		vals := r.indexes[index]
 		existing := vals[val]
 		if !existing.empty() && !existing.equals(newUUIDSet(uuid)) {
-			return NewIndexExistsError(
-				r.name,
-				val,
-				string(index),
-				uuid,
-				existing.list(),
-			)
+			if indexExists == nil {
+				indexExists = NewIndexExistsError(
+					r.name,
+					val,
+					string(index),
+					uuid,
+					existing.list(),
+				)
+				continue
+			}
+			// also report the rows found through the other indexes, a caller
+			// that can disregard some of the existing rows must see them all
+			indexExists.Existing = append(indexExists.Existing, existing.list()...)
 		}
+	}
+	if indexExists != nil {
+		return indexExists
 	}
 	return nil
 }
